@@ -3,7 +3,7 @@ For each protocol and role, the MIR of has_agency / assert_agency_is_ours / asse
 assert_outbound_state / assert_inbound_state is executed on a symbolic (state, message) pair of
 discriminants; `accepts to send` and `accepts to receive` must equal the spec relation."""
 import json, os, z3
-import mir, sym, smt
+import mir, sym, smt, native
 
 SPEC = os.path.join(os.path.dirname(os.path.dirname(os.path.abspath(__file__))), "spec", "n2_protocols.json")
 
@@ -104,3 +104,10 @@ def explain(q):
     must = "forbids" if impl else "allows"
     return {"protocol": meta["proto"], "role": meta["role"], "direction": meta["dir"], "state": sn, "message": gn,
             "impl_accepts": impl, "what": f"{meta['proto']} {meta['role']} {verb} to {meta['dir']} {gn} in state {sn} but the specification {must} it"}
+
+
+def replay(ctx, q, ex):
+    """native replay through the add-only hook `<Agent>::verif_guards(state, &msg)` (real guard functions)"""
+    case = f"{ex['protocol']};{ex['role']};{ex['direction']};{ex['state']};{ex['message']}"
+    ok, path = native.run_test("c23", None, ctx.outdir, {"C23_CASE": case})
+    return bool(ok), path
